@@ -316,6 +316,15 @@ func convOp1(a []string, cache map[int][]byte) string {
 			}
 			parts = append(parts, showSnssai(m.ServingSnssai)+"|"+h)
 		}
+		// the result is the caller's: it overwrites what it was given (a later conversion must not notice)
+		for _, m := range ms {
+			if m.HomeSnssai != nil {
+				m.HomeSnssai.Sst, m.HomeSnssai.Sd = 78, "yyyyyy"
+			}
+			if m.ServingSnssai != nil {
+				m.ServingSnssai.Sst, m.ServingSnssai.Sd = 77, "zzzzzz"
+			}
+		}
 		return "ok " + strings.Join(parts, ",")
 	case "snssai2m":
 		if len(a) != 2 {
